@@ -304,6 +304,34 @@ def proof_error(pr):
         return "forbidden vernacular: %s" % pr["forbidden"][:3]
     return log[-400:]
 
+def tag_constants_defined(c):
+    """A tag key a regime or add-on package declares as a constant AND uses in its code (HasTags, scenario filters ...) must be a tag
+    some published definition offers - otherwise the behaviour it switches is unreachable: validation refuses the tag as undefined."""
+    import glob as _g
+    import re as _re
+    defined = set()
+    for f in _g.glob(os.path.join(REPO, "data", "regimes", "*.json")) + _g.glob(os.path.join(REPO, "data", "addons", "*.json")):
+        try:
+            d = json.load(open(f))
+        except Exception:
+            continue
+        for ts in d.get("tags") or []:
+            for t in ts.get("list") or []:
+                defined.add(t.get("key"))
+    for pkg in sorted(set(os.path.dirname(f) for f in _g.glob(os.path.join(REPO, "addons", "*", "*", "*.go")) + _g.glob(os.path.join(REPO, "regimes", "*", "*.go")))):
+        texts = {f: open(f).read() for f in _g.glob(os.path.join(pkg, "*.go")) if not f.endswith("_test.go")}
+        for f, tx in texts.items():
+            for m in _re.finditer(r'\b(Tag\w+)\s+cbc\.Key\s*=\s*"([^"]+)"', tx):
+                name, key = m.group(1), m.group(2)
+                uses = sum(len(_re.findall(r"\b%s\b" % name, t)) for t in texts.values()) - 1
+                c.count("tag-constants-defined", 1, (os.path.relpath(pkg, REPO), key))
+                if uses > 0 and key not in defined:
+                    c.report("package %s uses the tag `%s` (constant %s, %d uses) but no published regime or add-on definition offers it: a document carrying it is refused as undefined"
+                             % (os.path.relpath(pkg, REPO), key, name, uses),
+                             {"package": os.path.relpath(pkg, REPO), "tag": key, "constant": name,
+                              "clause": "every shipped regime and addon definition only refers to tags that are themselves defined"})
+
+
 def definitions_conform(c):
     """Every shipped definition file (data/regimes, data/addons, data/catalogues) must be accepted by the published schema of its
     own `$schema` (a non-Go consumer reads these files with the schemas in hand). Independent reading: python jsonschema."""
@@ -354,6 +382,7 @@ def run(c):
         return
     pub = load_published(REPO)
     definitions_conform(c)
+    tag_constants_defined(c)
     code = load_in_code()
     currencies = set()
     for f in glob.glob(os.path.join(REPO, "data", "currency", "*.json")):
